@@ -369,6 +369,9 @@ pub fn eval_uniformity(c: &UniCase) -> Result<UniOut, Fail> {
     let n = c.n;
     let data: Vec<f64> = (0..n).map(|i| i as f64).collect();
     let mut counts = vec![0u64; n];
+    // the same, resolved by slot of the resample: what the first and the last slot hold
+    let (mut first, mut last) = (vec![0u64; n], vec![0u64; n]);
+    let mut nres = 0u64;
     for s in 0..c.nseeds {
         let seed = mix_seed(c.seed0, "C19/uniformity", s as u64);
         let d2 = &data;
@@ -389,6 +392,11 @@ pub fn eval_uniformity(c: &UniCase) -> Result<UniOut, Fail> {
                 }
                 counts[j] += 1;
             }
+            if v.len() == n {
+                first[v[0] as usize] += 1;
+                last[v[n - 1] as usize] += 1;
+                nres += 1;
+            }
         }
     }
     let total: u64 = counts.iter().sum();
@@ -408,6 +416,23 @@ pub fn eval_uniformity(c: &UniCase) -> Result<UniOut, Fail> {
                 n, total, c.nseeds, c.m, jmax, counts[jmax], e, t, counts[0], counts[n - 1]
             ),
         });
+    }
+    // (i') every slot of a resample is such a draw: the first and the last slot, every cell (union bound 2n)
+    if nres > 0 {
+        let (nr, es) = (nres as f64, nres as f64 / n as f64);
+        let ts = bernstein_dev(nr, 1. / n as f64, ALPHA / (2 * n) as f64);
+        for (which, cnt) in [("first", &first), ("last", &last)] {
+            let (jm, dv) = cnt.iter().enumerate().map(|(j, c)| (j, (*c as f64 - es).abs())).fold((0, 0.), |a, b| if b.1 > a.1 { b } else { a });
+            if dv > ts {
+                return Err(Fail {
+                    sig: "C19/bootstrap/uniformity/slot".into(),
+                    what: format!(
+                        "bootstrap positions not equally likely in every slot: data length {}, {} resamples: the {} slot of a resample holds data position {} in {} of them, expected {:.1} ± {:.1} (Bernstein, alpha 1e-12/2n)",
+                        n, nres, which, jm, cnt[jm], es, ts
+                    ),
+                });
+            }
+        }
     }
     // (ii) Pearson chi-square
     let chi2: f64 = counts.iter().map(|c| (*c as f64 - e).powi(2) / e).sum();
@@ -506,7 +531,7 @@ pub fn run(ctx: &mut Ctx) {
     ctx.rule = "data vectors are generated from (length, value class, salt): every length 1..=40 is enumerated with all 5 value classes \
 (ramp, distinct mixed magnitude, repeated, special ±0/±inf/extremes, constant), 1 or 3 resamples and 3 RNG seeds; then random lengths 2..=2000 \
 (half of them <= 40), 1..=200 resamples and a fresh RNG seed per case. Non-trivial: length >= 2 with at least two distinct values; distinct by \
-(function, data spec, resample count, seed). The uniformity sub-check pools the positions drawn by bootstrap on data 0..n-1 over many seeds."
+(function, data spec, resample count, seed). The uniformity sub-check pools the positions drawn by bootstrap on data 0..n-1 over many seeds, and also counts them separately for the first and the last slot of a resample."
         .into();
     ctx.assumptions = vec![
         "data are NaN-free; elements are compared by bit pattern, so +0 and -0 are different elements".into(),
